@@ -50,7 +50,7 @@ use vh::mon::{self, Ctx, Reporter};
 use scn::{Scenario, Strat, BEH_NAMES};
 
 /// histories per quick run (all shards)
-const HIST_QUICK: u64 = 24_000;
+const HIST_QUICK: u64 = 48_000;
 
 fn main() {
     let ctx = Ctx::from_args("C18");
